@@ -92,6 +92,9 @@ def row_keys(N, full=True):
         ks += [('[0]', 'g'), ('[-1, 0]', 'g'), ('np.array(%r)' % ([True] + [False] * (N - 1),), 'g'),
                (repr([False] + [True] * (N - 1)), 'g')]
     ks.append(('Ellipsis', 'g'))
+    # an event position computed with NumPy (np.argmax, np.flatnonzero(...)[k]) is an integer too
+    npi = ['np.int64(0)', 'np.intp(-1)', 'np.uint8(%d)' % (N - 1), 'np.int32(-%d)' % N, 'np.int16(%d)' % N, 'np.array([0, %d])[1]' % (N - 1)]
+    ks += [(k, 'g') for k in (npi if full else npi[:3])]
     return ks
 
 
